@@ -215,10 +215,14 @@ fn handle_diagnostics(
         match project {
             Some(set) => {
                 for file_id in unique_files {
-                    if let Some(content) = set.get(file_id) {
-                        let id = files.add(file_id.to_string(), content.as_string());
-                        files_to_ids.insert(file_id, id);
-                    }
+                    // A diagnostic may refer to something that is not a file of the project (for
+                    // example no file at all); it must not be attributed to some other file.
+                    let content = match set.get(file_id) {
+                        Some(content) => content.as_string(),
+                        None => empty_source,
+                    };
+                    let id = files.add(file_id.to_string(), content);
+                    files_to_ids.insert(file_id, id);
                 }
             }
             None => {
